@@ -26,6 +26,7 @@ import (
 	"time"
 
 	"keepverif/harness/astfacts"
+	"keepverif/harness/c35/looprun"
 	"keepverif/harness/hx"
 
 	golog "github.com/ipfs/go-log/v2"
@@ -185,6 +186,9 @@ var quietLogger = golog.Logger("verif-c35")
 
 func exec(op string) (string, string) {
 	f := strings.Fields(op)
+	if len(f) > 0 && f[0] == "loop" {
+		return looprun.Exec(op)
+	}
 	var specs [][]string
 	switch {
 	case len(f) == 8 && f[0] == "done":
@@ -529,6 +533,10 @@ func joinMsgs(ms []dmsg) string {
 func gen(r *hx.Rng, n int, tier string) []string {
 	var ops []string
 	for i := 0; i < n; i++ {
+		if i%10 == 9 {
+			ops = append(ops, looprun.Gen(r))
+			continue
+		}
 		if r.Chance(1, 30) {
 			ops = append(ops, hx.Pick(r, []string{"done 1,2 1 5 1 10 1.1.5.1.7 -", "done 1,2 1 5 1 10 01.1.5.1.7.3 -",
 				"done - 1 5 1 10 - -", "done 1,2 1 5 1 10 1.1.5.1.7.3.x -", "done 1 2"}))
@@ -717,7 +725,7 @@ func main() {
 					"signingDoneCheck.checkAllDone", "doneSignersMutex", "doneSigners")
 				ok = ok && err2 == nil && g2
 			}
-			return []string{astfacts.BoolFact("waitLoopReadsGuarded", ok)}
+			return append([]string{astfacts.BoolFact("waitLoopReadsGuarded", ok)}, looprun.Facts()...)
 		},
 		PerOpTimeout: 60 * time.Second,
 	})
